@@ -532,6 +532,113 @@ def queue_drift(work, harness, cases, seed):
     return out
 
 
+def catalogue_sinkdrift():
+    """cases whose emitting / unsubscribing threads drive ONE subscriber Observer through one StreamController (map over a
+    subject; merge of two subjects for next / error): every call maps 1:1 to a call of the design model SinkConc"""
+    cs = []
+    m = T('map', 0, 'inc', ins=[S(1)])
+    mg = T('merge', ins=[S(1), S(2)])
+    n1, n2 = E(1, 'n', 11), E(1, 'n', 12)
+    cs.append(case('sd/map/next-vs-error', m, [[n1, n2], [E(1, 'e', 5)]]))
+    cs.append(case('sd/map/next-vs-complete', m, [[n1, n2], [E(1, 'c')]]))
+    cs.append(case('sd/map/error-vs-complete', m, [[E(1, 'e', 5)], [E(1, 'c')]]))
+    cs.append(case('sd/map/next-vs-unsub', m, [[n1, n2], [UNSUB1]]))
+    cs.append(case('sd/map/error-vs-unsub', m, [[n1, E(1, 'e', 5)], [UNSUB1]]))
+    cs.append(case('sd/map/complete-vs-unsub-vs-next', m, [[E(1, 'c')], [UNSUB1], [n1]]))
+    cs.append(case('sd/merge/error-vs-items', mg, [[E(1, 'e', 5)], [E(2, 'n', 21), E(2, 'n', 22)]]))
+    cs.append(case('sd/merge/error-vs-error', mg, [[E(1, 'n', 11), E(1, 'e', 5)], [E(2, 'e', 6)]]))
+    cs.append(case('sd/merge/error-vs-unsub', mg, [[E(1, 'e', 5)], [E(2, 'n', 21)], [UNSUB1]]))
+    return cs
+
+
+def sink_drift(work, harness, seed, runs=40, corrupt=None, tagp='sd'):
+    """Lock-level conformance of the real subscriber Observer / StreamController with the L1 design model SinkConc
+    (spec/SinkConcTrace.tla): drift, never an alarm."""
+    out = {'cases': 0, 'traces': 0, 'lines': 0, 'drift': []}
+    todo = catalogue_sinkdrift()
+    path = work + '/sd.cases.json'
+    with open(path, 'w') as f:
+        json.dump(todo, f)
+    r = subprocess.run([harness, 'conc', '--cases', path, '--mode', 'random', '--max-runs', str(runs), '--seed', str(seed), '--log-locks', '1', '--out', work + '/sd.ndjson'], capture_output=True, text=True)
+    if r.returncode != 0:
+        raise ToolError('harness conc --log-locks failed: ' + r.stderr[-1500:])
+    byname = {c['name']: c for c in todo}
+    per_case = {}
+    cur = None
+    for line in open(work + '/sd.ndjson'):
+        v = json.loads(line)
+        if v['ev'] == 'reset':
+            cur = {'name': v['name'], 'ev': []}
+            per_case.setdefault(v['name'], []).append(cur)
+        elif v['ev'] != 'quiesce':
+            cur['ev'].append(v)
+    kname = {'n': 'next', 'e': 'error', 'c': 'complete'}
+    gen = work + '/gen'
+    for name, runs_ in per_case.items():
+        c = byname[name]
+        scripts = [[(kname[s['k']] if s['op'] == 'emit' else 'unsub') for s in th] for th in c['threads']]
+        lines = []
+        for run in runs_:
+            evs = run['ev']
+            hth = set(e['t'] for e in evs if e['ev'] == 'hthread')
+            spawned = [e['v'] for e in evs if e['ev'] == 'spawn' and e['t'] == 0 and e['v'] in hth]     # case threads in the order of the case
+            tmap = {t: i + 1 for i, t in enumerate(spawned)}
+            # the three callback slots of subscriber 1: the first three locks created at FunctionWrapper's RwLock::new after its subscribe call began
+            slots = []
+            seen_sub = False
+            for e in evs:
+                if e['ev'] == 'subcall' and e.get('u') == 1:
+                    seen_sub = True
+                elif seen_sub and e['ev'] == 'lk' and e['op'] == 'new' and re.search(r'internals/function_wrapper\.rs:\d+$', e.get('site', '')):
+                    slots.append(e['lock'])
+                    if len(slots) == 3:
+                        break
+            if len(slots) < 3:
+                out['drift'].append({'case': name, 'detail': 'the three callback slots of the subscriber could not be identified in the lock log'})
+                break
+            role = dict(zip(slots, 'NEC'))
+            lines.append(json.dumps({'ev': 'reset', 't': 0, 'k': '', 'scripts': scripts}))
+            for e in evs:
+                if e['t'] not in tmap:
+                    continue
+                t = tmap[e['t']]
+                if e['ev'] == 'lk':
+                    if e['op'] == 'acq' and e['lock'] in role:
+                        lines.append(json.dumps({'ev': '%s_%s' % (e['m'], role[e['lock']]), 't': t, 'k': ''}))
+                elif e['ev'] == 'emitcall':
+                    lines.append(json.dumps({'ev': 'call', 't': t, 'k': kname[e['k']]}))
+                elif e['ev'] == 'unsubcall':
+                    lines.append(json.dumps({'ev': 'call', 't': t, 'k': 'unsub'}))
+                elif e['ev'] in ('emitret', 'unsubret'):
+                    lines.append(json.dumps({'ev': 'ret', 't': t, 'k': ''}))
+                elif e['ev'] == 'cbstart' and e.get('u') == 1:
+                    lines.append(json.dumps({'ev': 'cb', 't': t, 'k': e['k']}))
+            out['traces'] += 1
+        if not lines:
+            continue
+        if corrupt:
+            lines = corrupt(lines)
+            if lines is None:
+                continue
+        out['cases'] += 1
+        out['lines'] += len(lines)
+        tag = tagp + '_' + re.sub(r'[^a-z0-9]', '_', name)
+        tpath = '%s/%s.ndjson' % (work, tag)
+        with open(tpath, 'w') as f:
+            f.write('\n'.join(lines) + '\n')
+        cfg = '%s/%s.cfg' % (gen, tag)
+        with open(cfg, 'w') as f:
+            f.write('SPECIFICATION TSpec\nCONSTANTS NThreads = %d\n MaxCalls = 3\n ArbiterFix = TRUE\n WithFinalize = TRUE\nCONSTRAINT Progress\nINVARIANT ModelInvariants\nPOSTCONDITION Accepted\nCHECK_DEADLOCK FALSE\n' % len(c['threads']))
+        env = dict(os.environ)
+        env['TRACE'] = tpath
+        env['JAVA_TOOL_OPTIONS'] = '-Xss1g -Xmx3g'
+        rr = subprocess.run(['timeout', '600'] + tlc_cmd(1, '%s/md-%s' % (work, tag), cfg, 'SinkConcTrace.tla'), cwd=gen, capture_output=True, text=True, env=env)
+        if 'Model checking completed. No error has been found.' not in rr.stdout:
+            m = re.search(r'DRIFT: [^\n]*\n?[^\n]*', rr.stdout)
+            out['drift'].append({'case': name, 'detail': (m.group(0) if m else rr.stdout[-900:])[:900]})
+    return out
+
+
 def load_known():
     p = V + '/known_findings.json'
     return [k for k in json.load(open(p)).get('findings', []) if 'match' in k] if os.path.exists(p) else []
@@ -641,6 +748,11 @@ def run_conc_check(prop, tier, flags, seed, design_ref, models=(), extra_cases=N
             qd = queue_drift(work, harness, cases, seed)
             if qd['drift']:
                 out_lines.append('MODEL-DRIFT property=C08 the lock-level log of the real scheduler queue is no longer a behaviour of the L1 model SchedQueue (%d of %d cases; first: %s)'
+                                 % (len(qd['drift']), qd['cases'], qd['drift'][0]['detail'][:300].replace('\n', ' ')))
+        if prop == 'C19':
+            qd = sink_drift(work, harness, seed, runs=40 if tier == 'quick' else 400)
+            if qd['drift']:
+                out_lines.append('MODEL-DRIFT property=C19 the lock-level log of the subscriber Observer / StreamController is no longer a behaviour of the L1 design model SinkConc (%d of %d cases; first: %s)'
                                  % (len(qd['drift']), qd['cases'], qd['drift'][0]['detail'][:300].replace('\n', ' ')))
         runs = sum(c['runs'] for c in per_case) + sum(c['runs'] for c in pc2)
         distinct = sum(c['distinct_traces'] for c in per_case)
